@@ -424,6 +424,9 @@ def rule_ibpos(progs, tier, name="JSONPOS"):
                 ks = list(range(0, len(bits) + 2))
                 if tier != "thorough" and len(ks) > 24:
                     ks = ks[:6] + ks[len(ks) // 2 - 3:len(ks) // 2 + 3] + ks[-8:]
+                elif len(ks) > 400:
+                    # k x hint is quadratic in the document: on the long documents every 13th k, and both ends
+                    ks = sorted(set(ks[:40] + ks[::13] + ks[-40:]))
                 done = False
                 for k in ks:
                     for hint in range(0, len(words) + 11):
